@@ -868,7 +868,12 @@ func (c *Conn) dispatch(fr *FrameHeader) bool {
 	// would wedge the RoundTrip that is waiting to take it back.
 	defer r.release()
 
-	err := c.readStream(fr, r.Response)
+	err := c.readStream(fr, r)
+	if err == nil && fr.Flags().Has(FlagEndStream) && !r.statusSeen {
+		// The response is over and never said how it went.
+		err = errInvalidStatus
+	}
+
 	if err == nil {
 		if fr.Flags().Has(FlagEndStream) {
 			c.finish(r, fr.Stream(), nil)
@@ -1469,11 +1474,13 @@ func (c *Conn) handlePing(ping *Ping) {
 	c.writeOut(fr)
 }
 
-func (c *Conn) readStream(fr *FrameHeader, res *fasthttp.Response) (err error) {
+func (c *Conn) readStream(fr *FrameHeader, r *Ctx) (err error) {
+	res := r.Response
+
 	switch fr.Type() {
 	case FrameHeaders, FrameContinuation:
 		h := fr.Body().(FrameWithHeaders)
-		err = c.readHeader(h.Headers(), res)
+		err = c.readHeader(h.Headers(), r)
 	case FrameResetStream:
 		// The server gave up on the stream. Without this the request would sit
 		// there until MaxResponseTime, or forever if that check is disabled.
@@ -1516,14 +1523,16 @@ func (c *Conn) updateWindow(streamID uint32, size int) {
 	c.writeOut(fr)
 }
 
-func (c *Conn) readHeader(b []byte, res *fasthttp.Response) error {
+func (c *Conn) readHeader(b []byte, r *Ctx) error {
 	var err error
+
+	res := r.Response
 	hf := AcquireHeaderField()
 	defer ReleaseHeaderField(hf)
 
 	dec := c.dec
 
-	var regularSeen bool
+	var regularSeen, statusSeen bool
 
 	for len(b) > 0 {
 		b, err = dec.Next(hf, b)
@@ -1543,10 +1552,13 @@ func (c *Conn) readHeader(b []byte, res *fasthttp.Response) error {
 				return fmt.Errorf("invalid response pseudo-header %q", hf.KeyBytes())
 			}
 
+			// Three digits, once per block.
 			n, err := parseUint(hf.ValueBytes())
-			if err != nil || n < 100 || n > 999 {
+			if err != nil || statusSeen || len(hf.ValueBytes()) != 3 || n < 100 {
 				return errInvalidStatus
 			}
+
+			statusSeen, r.statusSeen = true, true
 
 			res.SetStatusCode(n)
 
